@@ -115,7 +115,7 @@ type InterpModel struct {
 	// MainMode: used for package main — module calls are events (nothing is inlined) and loads of
 	// the two error flags fork over both values
 	// Unroll: nested activations of one helper function inlined (Machine.Unroll)
-	Unroll   int
+	Unroll int
 	// StateCap: a smaller state budget for explorations of small functions (0: the machine's default) — a walk that never
 	// converges should end as "undecided" after seconds, not after gigabytes
 	StateCap int
@@ -929,6 +929,10 @@ func exploreEvalClause(p *Prog, nodeType string, entryRaised, stores bool) (*Int
 	ii := p.Interp()
 	m := NewInterpModel(p, "eval/"+strings.TrimPrefix(nodeType, "*ast."))
 	m.EmitTests = stores
+	// a clause of eval is a few hundred abstract states at most; one that runs into the tens of thousands (a helper that
+	// counts a concrete index down, say) is given up at a fixed count — the same verdict on every run and machine,
+	// rather than whenever the heap happens to reach the memory budget
+	m.StateCap = 20000
 	params := []AV{Sym("i"), Sym("e"), Sym("env"), Sym("isRepl")}
 	mc := m.Explore(ii.Eval, params, func(st *State) {
 		st.Facts["type:e"] = StrV(nodeType)
